@@ -1,5 +1,6 @@
 (* C19 - what the property demands of one allocation site, independent of how the code is shaped:
-   whatever the allocator answers, the site does not dereference NULL, and when the allocator fails
+   whatever the allocator answers, the site does not dereference NULL and does not store NULL where it
+   would be read as "not requested", and when the allocator fails
    the function's error edge is taken (that edge is what becomes PS_MEM_FAIL / SSL_MEM_ERROR / an
    internal_error alert at the API boundary - the propagation itself is explored by fault injection,
    not proved). *)
@@ -9,6 +10,7 @@ From MV Require Import Gen.AllocSites Res.ResModel.
 Definition alloc_failure_clean (s : site) : Prop :=
   forall orc : oracle,
     (forall k, run_site s orc <> Fault k) /\
+    run_site s orc <> SilentNull /\
     (orc = None -> run_site s orc = ErrorEdge).
 
 (* full-strength table statement; it holds exactly when known_open_keys is empty *)
